@@ -118,12 +118,17 @@ func c11Body(s *simkit.Sim, rc *simkit.RunCtx) {
 	rc.Sample = sample
 	w := world.New(s, rc)
 	defer w.Shutdown()
+	w.LogHook.Keep = debugGaps
 	iss, err := w.StartNode(world.NodeOpts{Name: "nodeb", DIDMethods: "web", Web: true, SimSQL: true})
 	if err != nil {
 		s.Fail("C11.harness", "start", "%v", err)
 		return
 	}
-	ver, err := w.StartNode(world.NodeOpts{Name: "nodea", DIDMethods: "web", Web: true})
+	verOpts := world.NodeOpts{Name: "nodea", DIDMethods: "web", Web: true}
+	if debugGaps {
+		verOpts.Env = map[string]string{"NUTS_VERBOSITY": "debug"}
+	}
+	ver, err := w.StartNode(verOpts)
 	if err != nil {
 		s.Fail("C11.harness", "start", "%v", err)
 		return
@@ -142,6 +147,7 @@ func c11Body(s *simkit.Sim, rc *simkit.RunCtx) {
 	// the verifier's knowledge: bits it has seen set in a downloaded list, with the step of the download
 	known := map[string]map[int]int{}
 	seenServed := map[string]map[int]bool{} // bits ever seen set in any served version (never cleared)
+	pending := map[string][][2]string{}
 	w.HTTP.KeepBodies = true
 	w.HTTP.Observe = func(rec *seams.HTTPRecord) {
 		if rec.Method != "GET" || !strings.Contains(rec.Path, "/statuslist/") || rec.Status != 200 || rec.Fault != "" {
@@ -153,16 +159,26 @@ func c11Body(s *simkit.Sim, rc *simkit.RunCtx) {
 		}
 		mu.Lock()
 		defer mu.Unlock()
-		if known[id] == nil {
-			known[id] = map[int]int{}
-		}
+		// the node knows a downloaded list once the operation that downloaded it has finished
+		// checking and storing it; until then it is in flight
 		for _, c := range creds {
 			if c.List == id && bitSet(bits, c.Index) {
-				if _, ok := known[id][c.Index]; !ok {
-					known[id][c.Index] = s.Steps
-				}
+				pending[rec.From] = append(pending[rec.From], [2]string{id, strconv.Itoa(c.Index)})
 			}
 		}
+	}
+	promote := func(label string) {
+		// caller holds mu
+		for _, p := range pending[label] {
+			idx, _ := strconv.Atoi(p[1])
+			if known[p[0]] == nil {
+				known[p[0]] = map[int]int{}
+			}
+			if _, ok := known[p[0]][idx]; !ok {
+				known[p[0]][idx] = s.Steps
+			}
+		}
+		delete(pending, label)
 	}
 
 	issue := func(issuer int) *c11Cred {
@@ -244,15 +260,79 @@ func c11Body(s *simkit.Sim, rc *simkit.RunCtx) {
 		}
 		return code == 200 && r.Validity, msg
 	}
+	type vop struct {
+		label      string
+		start, end int
+	}
+	var verifyOps []*vop
 	checkVerify := func(c *c11Cred, startStep int, issuerUp bool, faultsBefore int) {
+		op := &vop{label: s.Label(), start: s.Steps}
+		mu.Lock()
+		verifyOps = append(verifyOps, op)
+		mu.Unlock()
 		ok, msg := verify(c)
+		mu.Lock()
+		op.end = s.Steps
+		promote(op.label)
+		mu.Unlock()
 		mu.Lock()
 		knownAt, isKnown := known[c.List][c.Index]
 		revStart := c.RevStart
 		mu.Unlock()
 		s.Info.Inc("verifications")
+		if ok && isKnown && knownAt <= startStep && debugGaps {
+			for _, r := range w.HTTP.Requests() {
+				if strings.Contains(r.Path, "/statuslist/") {
+					id, bits, exp, err := parseListCredential(r.RespBody)
+					fmt.Printf("HTTPLOG done=%d step=%d at=%v from=%s status=%d fault=%q id=%s bit=%v exp=%v err=%v\n", r.DoneStep, r.Step, r.At, r.From, r.Status, r.Fault, id[len(id)-8:], bitSet(bits, c.Index), exp, err)
+				}
+			}
+			for _, l := range w.LogHook.Lines {
+				if strings.Contains(l, "StatusList") || strings.Contains(l, "tatus") {
+					fmt.Println("LOG", l)
+				}
+			}
+			fmt.Printf("CRED list=%s idx=%d revstart=%d revack=%d now=%v\n", c.List, c.Index, c.RevStart, c.RevAck, s.Now())
+		}
 		if ok && isKnown && knownAt <= startStep {
-			s.Fail("C11.effective", "valid-after-known", "credential %s verified as valid at step %d although the verifier downloaded a list with its bit %d set at step %d (issuer reachable: %v)", c.ID, s.Steps, c.Index, knownAt, issuerUp)
+			site := "valid-after-known"
+			// were there two downloads of this list in flight at the same time? (known finding: the
+			// older answer may be stored after the newer one)
+			var dl []seams.HTTPRecord
+			for _, r := range w.HTTP.Requests() {
+				if r.Status == 200 && r.Fault == "" && strings.Contains(r.Path, "/statuslist/") {
+					if id, _, _, err := parseListCredential(r.RespBody); err == nil && id == c.List {
+						dl = append(dl, r)
+					}
+				}
+			}
+			// a download belongs to the verification that made it; that verification stores the list
+			// only after it has also checked the list's signature (more requests), so the window
+			// of the race is the whole verification
+			span := func(r seams.HTTPRecord) (int, int) {
+				mu.Lock()
+				defer mu.Unlock()
+				for _, o := range verifyOps {
+					if o.label == r.From && o.start <= r.Step && (o.end == 0 || r.Step <= o.end) {
+						end := o.end
+						if end == 0 {
+							end = 1 << 30
+						}
+						return o.start, end
+					}
+				}
+				return r.Step, r.DoneStep
+			}
+			for i := range dl {
+				for j := i + 1; j < len(dl); j++ {
+					a0, a1 := span(dl[i])
+					b0, b1 := span(dl[j])
+					if a0 <= b1 && b0 <= a1 {
+						site = "valid-after-known:overlapping-downloads"
+					}
+				}
+			}
+			s.Fail("C11.effective", site, "credential %s verified as valid at step %d although the verifier downloaded a list with its bit %d set at step %d (issuer reachable: %v)", c.ID, s.Steps, c.Index, knownAt, issuerUp)
 			return
 		}
 		if !ok && revStart == 0 && issuerUp && totalFaults(s) == faultsBefore {
